@@ -181,6 +181,55 @@ fn attempts(cfg: &Cfg, tier: Tier) -> Vec<Attempt> {
             out.push(a);
         }
     }
+    // violations at TWO positions that cancel in any aggregate view of the witness (sums of values / of blinding factors)
+    if m >= 2 {
+        for (a, b) in [(0usize, 1usize), (0, m - 1), (m / 2, m - 1)] {
+            if a == b {
+                continue;
+            }
+            if base.open_values[a] != base.open_values[b] || base.open_blindings[a] != base.open_blindings[b] {
+                let mut x = base.clone();
+                x.name = format!("openings[{}]<->[{}] exchanged", a, b);
+                x.open_values.swap(a, b);
+                x.open_blindings.swap(a, b);
+                out.push(x);
+            }
+            if base.open_values[a] >= 1 && base.open_values[b] < max {
+                let mut x = base.clone();
+                x.name = format!("one unit of value moved [{}]->[{}]", a, b);
+                x.open_values[a] -= 1;
+                x.open_values[b] += 1;
+                out.push(x);
+            }
+            if base.open_blindings[a][0] != base.open_blindings[b][0] {
+                let mut x = base.clone();
+                x.name = format!("blinding[0] exchanged between [{}] and [{}]", a, b);
+                let t = x.open_blindings[a][0];
+                x.open_blindings[a][0] = x.open_blindings[b][0];
+                x.open_blindings[b][0] = t;
+                out.push(x);
+            }
+        }
+    }
+    // blinding-count deviations that come in pairs (commitments made with as many factors as the openings carry)
+    if m >= 4 && cfg.d >= 2 {
+        for pattern in ["second-half", "last-pair", "alternating-pairs"] {
+            let mut x = base.clone();
+            x.name = format!("witness degree {} on {} (matching commitments)", cfg.d - 1, pattern);
+            for j in 0..m {
+                let short = match pattern {
+                    "second-half" => j >= m / 2,
+                    "last-pair" => j >= m - 2,
+                    _ => (j / 2) % 2 == 1,
+                };
+                if short {
+                    x.open_blindings[j].truncate(cfg.d - 1);
+                    x.commit_blindings[j] = x.open_blindings[j].clone();
+                }
+            }
+            out.push(x);
+        }
+    }
     // full value x promise product for tiny spaces (n*m <= 4), invalid promises included
     if cfg.big_n() <= 4 && cfg.c == cfg.m && cfg.d == 1 {
         let vals: Vec<u64> = (0..=(max + 1)).collect();
@@ -295,7 +344,7 @@ fn attempt_case<P: G>(cfg: Cfg, a: Attempt) -> Box<dyn Case> {
 pub fn run(rep: &mut Report) {
     rep.rule = "configuration lattice x {valid default; each single violation of the witness relation at each position: opening count \
                 m/2, m+1, 2m; witness degree d+/-1; value +/-1 against unchanged commitment; each blinding component +1; boundary values \
-                2^n-1, 2^n, 2^n+1, u64::MAX, 0 with matching commitment; the opening (0, zero blinding factors) whose commitment is the identity; a zero leading blinding factor; promise in {v-1, v, v+1, 0, u64::MAX}}; full (value x promise) \
+                2^n-1, 2^n, 2^n+1, u64::MAX, 0 with matching commitment; the opening (0, zero blinding factors) whose commitment is the identity; a zero leading blinding factor; promise in {v-1, v, v+1, 0, u64::MAX}; two-position violations that cancel in sums (openings exchanged, a unit of value moved, a blinding factor exchanged); blinding-count deviations in pairs}; full (value x promise) \
                 product incl. invalid ones when bits*aggregation <= 4; oracle: independent validity predicate; Ok <=> valid; every Ok proof \
                 verifies (library + reference); refusals are errors not panics; every attempt through both entry points (caller's generator, OS randomness)"
         .into();
